@@ -12,7 +12,7 @@ EXPLANATION = (
     "an element popped from the scored copies of the generator's list; (R3) every apply / toggle_turn on a borrowed "
     "board in the search call graph is undone on all paths (C04.R4 instances); the root tasks work on clones; "
     "(R4) both recursive calls of alpha_beta_minimax pass depth-1 and are guarded by the depth == 0 return. Legality "
-    "beyond 'one of the generator's moves for this position' (R5 imports the cache-key rules of C02/C05) and panics from lock poisoning are NOT decided; (R6) no division by a possibly-zero value in the search call graph.")
+    "beyond 'one of the generator's moves for this position' (R5 imports the cache-key rules of C02/C05) and panics from lock poisoning are NOT decided; (R6) no division by a possibly-zero value in the search call graph; (R7) imports the legality-filter rules C01.R1/R2 (the candidates searched are legal).")
 ASSUMPTIONS = [
     "rayon's par_iter().map().collect() yields one scored entry per candidate (so a non-empty candidate list gives a non-empty vector)",
     "rustc MIR construction and the chessfacts extractor are faithful",
@@ -263,7 +263,17 @@ def r6_no_arithmetic_panic(ctx):
     ctx.floor(rule, 'functions of the search call graph scanned', n, 10)
 
 
+def r7_candidates_are_legal(ctx):
+    """R2 makes the answer one of the generator's moves; those are legal only if every pseudo-legal move went through the legality
+    filter and the filter simulates each candidate (= C01.R1 / R2)"""
+    from . import c01
+    import_rules(ctx, 'C07.R7-candidates-are-legal', [c01.r1_filter_dominance, c01.r2_filter_shape],
+                 'a candidate that skipped the apply / attack-map / undo simulation (e.g. an en-passant capture judged by the squares of the '
+                 'capturing pawn alone) can be returned by the search although it leaves the own king in check', floor=6)
+
+
 def run(ctx):
+    r7_candidates_are_legal(ctx)
     r6_no_arithmetic_panic(ctx)
     r1_declared_outcomes(ctx)
     r2_no_fabrication(ctx)
